@@ -4,6 +4,7 @@ import (
 	"context"
 	"fmt"
 	"reflect"
+	"sync"
 )
 
 var (
@@ -17,13 +18,23 @@ type FieldQuery struct {
 	hash   string
 }
 
+// a FieldQuery is shared between the goroutines that encode with it: its cached hash is
+// read and written under this lock.
+var queryHashMu sync.RWMutex
+
 func (q *FieldQuery) Hash() string {
-	if q.hash != "" {
-		return q.hash
+	queryHashMu.RLock()
+	hash := q.hash
+	queryHashMu.RUnlock()
+	if hash != "" {
+		return hash
 	}
 	b, _ := Marshal(q)
-	q.hash = string(b)
-	return q.hash
+	hash = string(b)
+	queryHashMu.Lock()
+	q.hash = hash
+	queryHashMu.Unlock()
+	return hash
 }
 
 func (q *FieldQuery) MarshalJSON() ([]byte, error) {
